@@ -62,9 +62,14 @@ def module_regex(prog, modname, varname):
     if e is None:
         raise AnalysisError('anchor vanished: %s.%s' % (modname, varname))
     attr = None
-    if isinstance(e, ast.Attribute):
-        attr = e.attr
-        e = e.value
+    for _ in range(4):       # NAME = re.compile(...); PRED = NAME.search  (one or two levels of naming)
+        if isinstance(e, ast.Attribute) and attr is None and not (isinstance(e.value, ast.Name) and e.value.id == 're'):
+            attr = e.attr
+            e = e.value
+        elif isinstance(e, ast.Name) and mod.const_expr(e.id) is not None:
+            e = mod.const_expr(e.id)
+        else:
+            break
     if not (isinstance(e, ast.Call) and call_name(e) == 're.compile' and e.args):
         raise AnalysisError('%s.%s is not re.compile(...)' % (modname, varname))
     try:
@@ -73,6 +78,15 @@ def module_regex(prog, modname, varname):
         raise AnalysisError('cannot fold pattern of %s.%s: %s' % (modname, varname, ex))
     flags = ' '.join(txt(a) for a in e.args[1:]) + ' '.join(txt(k.value) for k in e.keywords)
     return pat, flags, e, attr
+
+
+def is_regex_method_name(prog, modname, name):
+    """True when module-level `name` is a bound method of a compiled pattern (possibly through a named pattern)."""
+    try:
+        pat, flags, node, attr = module_regex(prog, modname, name)
+    except AnalysisError:
+        return False
+    return attr is not None
 
 
 def literal_alternatives(pattern, limit=4096):
@@ -221,6 +235,12 @@ def check_none_default(ctx, fn, param, rule='T19c', zero_valid=True):
                     found += 1
                     ctx.ob(rule, '%s(%s)' % (fn.fq, param), 'parameter `%s` is recognised as omitted by `is None`' % param,
                            True, loc=loc(fn, n))
+        # `param = param or <default>` / `x = param or <default>`: truthiness defaulting in expression form
+        if isinstance(n, ast.BoolOp) and isinstance(n.op, ast.Or) and len(n.values) >= 2 and \
+                isinstance(n.values[0], ast.Name) and n.values[0].id == param:
+            found += 1
+            ctx.ob(rule, '%s(%s)' % (fn.fq, param), 'parameter `%s` (default None = "not given", 0 is a valid value) is defaulted '
+                   'with `or`: an explicit 0 is treated as omitted' % param, False, loc=loc(fn, n), detail=txt(n))
     if found == 0:
         ctx.ob(rule, '%s(%s)' % (fn.fq, param), 'no defaulting test on `%s` (nothing to check)' % param, True, loc=loc(fn),
                nontrivial=False)
@@ -315,3 +335,112 @@ def guard_dnf(fn, node):
             out = [a + b for a in out for b in d]
         cur = p
     return out
+
+
+def string_values(fn, extra_fns=()):
+    """String values a function mentions: literal constants plus module-level names that fold to a str
+    (a literal moved into a module constant keeps its meaning)."""
+    out = []
+    folder = Folder(fn.module)
+    for f in (fn,) + tuple(extra_fns):
+        local = {a.arg for a in ast.walk(f.node) if isinstance(a, ast.arg)} | \
+                {n.id for n in ast.walk(f.node) if isinstance(n, ast.Name) and isinstance(n.ctx, ast.Store)}
+        for n in ast.walk(f.node):
+            if isinstance(n, ast.Constant) and isinstance(n.value, str):
+                out.append((n.value, n))
+            elif isinstance(n, ast.Name) and isinstance(n.ctx, ast.Load) and n.id not in local and n.id in f.module.assigns:
+                try:
+                    v = folder.name(n.id)
+                except Unknown:
+                    continue
+                if isinstance(v, str):
+                    out.append((v, n))
+    return out
+
+
+def _listed_call(e):
+    """The call C when e is list(C) / [x for x in C] / list(x for x in C) / list(iter(C)), else None."""
+    if isinstance(e, ast.Call) and call_name(e) in ('list', 'iter') and len(e.args) == 1 and not e.keywords:
+        inner = e.args[0]
+        if isinstance(inner, ast.Call):
+            return _listed_call(inner) or inner
+        return _listed_call(inner)
+    if isinstance(e, (ast.ListComp, ast.GeneratorExp)) and len(e.generators) == 1 and not e.generators[0].ifs and \
+            isinstance(e.generators[0].target, ast.Name) and isinstance(e.elt, ast.Name) and e.elt.id == e.generators[0].target.id:
+        it = e.generators[0].iter
+        return it if isinstance(it, ast.Call) else None
+    return None
+
+
+def list_delegation(prog, f, g, recv=None):
+    """[(bound args of the g(...) call, path)] for every normal return path of f whose value is the list of one g(...) call;
+    a return path of another shape yields (None, path)."""
+    w, paths = paths_of(prog, f, recv=recv)
+    out = []
+    for p in paths:
+        if p.kind != 'return':
+            continue
+        e = w.expand(p.outcome[1]) if p.outcome[1] is not None else None
+
+        def through_comp(x):
+            # an identity comprehension recorded by the walker: [v for v in IT] with IT already copy-propagated
+            if isinstance(x, ast.Name) and w.tokens.get(x.id, ('',))[0] == 'comp':
+                _, kind, node, itv, _vs = w.tokens[x.id]
+                if kind in ('list', 'gen') and _listed_call(node) is not None or (
+                        kind in ('list', 'gen') and len(node.generators) == 1 and not node.generators[0].ifs and
+                        isinstance(node.elt, ast.Name) and txt(node.elt) == txt(node.generators[0].target)):
+                    return w.expand(itv), kind
+            return None, None
+        c = _listed_call(e)
+        if c is None:
+            it, kind = through_comp(e)
+            if it is None and isinstance(e, ast.Call) and call_name(e) == 'list' and len(e.args) == 1:
+                it, kind = through_comp(e.args[0])
+                kind = 'list' if it is not None else None
+            if it is not None and kind == 'list' and isinstance(it, ast.Call):
+                c = it
+        if c is None or call_name(c) != g.name:
+            out.append((None, p))
+            continue
+        got = {}
+        params = g.params
+        for i, a in enumerate(c.args):
+            if isinstance(a, ast.Starred):
+                got['*'] = txt(a.value)
+            elif i < len(params):
+                got[params[i]] = txt(a)
+        for k in c.keywords:
+            got[k.arg if k.arg is not None else '**'] = txt(k.value)
+        out.append((got, p))
+    return out
+
+
+def check_identity_only(ctx, fn, param, rule, why):
+    """An arbitrary object (it may define __bool__/__len__) is examined by identity tests only: a truthiness test of
+    `param` (if param / not param / param and ... / param or ...) decides on the object's own notion of truth."""
+    par = {}
+    for n in ast.walk(fn.node):
+        for c in ast.iter_child_nodes(n):
+            par[c] = n
+    bad = []
+    for n in ast.walk(fn.node):
+        if isinstance(n, ast.Name) and n.id == param and isinstance(n.ctx, ast.Load):
+            p = par.get(n)
+            c = n
+            while isinstance(p, ast.UnaryOp) and isinstance(p.op, ast.Not):
+                c, p = p, par.get(p)
+            if isinstance(p, ast.BoolOp):
+                # an operand of and/or is truth-tested unless it is the last operand of a value-position expression
+                last = p.values[-1] is c
+                q, cc = par.get(p), p
+                while isinstance(q, (ast.BoolOp, ast.UnaryOp)):
+                    cc, q = q, par.get(q)
+                in_test = isinstance(q, (ast.If, ast.While, ast.IfExp)) and q.test is cc
+                if not last or in_test:
+                    bad.append(n)
+            elif isinstance(p, (ast.If, ast.While, ast.IfExp)) and p.test is c:
+                bad.append(n)
+            elif c is not n:            # `not param` in value position
+                bad.append(n)
+    ctx.ob(rule, '%s(%s)' % (fn.fq, param), '`%s` is examined by identity (`is None`) only, never by truthiness: %s' % (param, why),
+           not bad, loc=loc(fn, bad[0]) if bad else loc(fn), detail='truthiness test at line %d' % bad[0].lineno if bad else '')
